@@ -18,6 +18,13 @@ def sh(cmd, **kw):
     return subprocess.run(cmd, stdout=subprocess.PIPE, stderr=subprocess.STDOUT, text=True, **kw)
 
 
+def demo_cmd():
+    """SEED_DEMO_MIRI=1: the demonstration only fails under the undefined-behaviour interpreter"""
+    if os.environ.get("SEED_DEMO_MIRI"):
+        return ["cargo", "+nightly", "miri", "test", "--offline", "-p", "ffuzzy", "--test", "seed_demo"] + os.environ.get("SEED_DEMO_ARGS", "").split()
+    return ["cargo", "test", "--offline", "-p", "ffuzzy", "--test", "seed_demo"] + os.environ.get("SEED_DEMO_ARGS", "").split()
+
+
 def main():
     sid, prop, patch, demo, needs = sys.argv[1:6]
     checks = sys.argv[6:] or [prop]
@@ -30,14 +37,14 @@ def main():
     try:
         os.makedirs(os.path.join(scratch, "ffuzzy", "tests"), exist_ok=True)
         shutil.copy(demo, os.path.join(scratch, "ffuzzy", "tests", "seed_demo.rs"))
-        r = sh(["cargo", "test", "--offline", "-p", "ffuzzy", "--test", "seed_demo"] + os.environ.get("SEED_DEMO_ARGS", "").split(), cwd=scratch)
-        meta["ran"].append({"cmd": "cargo test --offline -p ffuzzy --test seed_demo (unchanged tree)", "passed": r.returncode == 0})
+        r = sh(demo_cmd(), cwd=scratch)
+        meta["ran"].append({"cmd": " ".join(demo_cmd()) + " (unchanged tree)", "passed": r.returncode == 0})
         ok &= r.returncode == 0
         a = sh(["git", "-C", scratch, "apply", os.path.abspath(patch)])
         meta["ran"].append({"cmd": "git apply patch.diff", "passed": a.returncode == 0, "out": a.stdout[-300:]})
         ok &= a.returncode == 0
-        r = sh(["cargo", "test", "--offline", "-p", "ffuzzy", "--test", "seed_demo"] + os.environ.get("SEED_DEMO_ARGS", "").split(), cwd=scratch)
-        meta["ran"].append({"cmd": "cargo test --offline -p ffuzzy --test seed_demo (with the change)", "failed_as_required": r.returncode != 0})
+        r = sh(demo_cmd(), cwd=scratch)
+        meta["ran"].append({"cmd": " ".join(demo_cmd()) + " (with the change)", "failed_as_required": r.returncode != 0})
         ok &= r.returncode != 0
         os.remove(os.path.join(scratch, "ffuzzy", "tests", "seed_demo.rs"))
         t = sh(["cargo", "test", "--workspace", "--offline"], cwd=scratch)
